@@ -343,6 +343,14 @@ def c13(res, tier, seed, deep):
 # ------------------------------------------------------------------------------------------------
 # search properties
 
+HEAVY = [
+    "r3k2r/p1ppqpb1/bn2pnp1/3PN3/1p2P3/2N2Q1p/PPPBBPPP/R3K2R w KQkq - 0 1",
+    "3qk3/8/8/8/8/8/8/QQQQKQQQ w - - 0 1",
+    "qqqqkqqq/8/8/8/8/8/8/QQQQKQQQ b - - 0 1",
+    "R6R/3Q4/1Q4Q1/4Q3/2Q4Q/Q4Q2/pp1Q4/kBNN1KB1 w - - 0 1",
+    "q1q3k1/1q1q1ppp/8/8/8/8/PPP1Q1Q1/1K1Q3Q b - - 0 1",
+]
+
 MIDGAME = [
     "r3k2r/p1ppqpb1/bn2pnp1/3PN3/1p2P3/2N2Q1p/PPPBBPPP/R3K2R w KQkq - 0 1",
     "r4rk1/1pp1qppp/p1np1n2/2b1p1B1/2B1P1b1/P1NP1N2/1PP1QPPP/R4RK1 w - - 0 10",
@@ -450,7 +458,19 @@ def c19(res, tier, seed, deep):
     p2, _, _ = wee.run_lines(wee.harness_path(), pubs)
     for r, a, b in zip(pubs, p1, p2):
         res.add(r + " #repeat", a, a, "same", (lambda x, a=a, b=b: "same" if a == b else f"differs: {b[:120]}"))
-    return "legal positions from play; seeds; depth limits 1-3 (thorough: 4) with an explicit single worker through the hook: the real StatusEvent sequence (lines, evaluations, node counts, table entries) must equal the Lean model's prediction exactly, be identical when repeated in one process and in a fresh process; depth limits 1-3 through the public Searcher::analyze repeated across processes"
+    # the same through the public entry point on the positions with the LARGEST trees (queen-rich, 45+ legal moves):
+    # the worker-count rule (`depth < 3` → one worker) is the only thing that keeps depth limits 1-3 deterministic, and
+    # a rule keyed on anything else (nodes, time, mobility) departs from it first where the tree is big
+    mv = model_moves(fens + HEAVY)
+    heavy = [f for f, ms in sorted(mv, key=lambda x: -len(x[1]))][: (10 if (tier == "thorough" or deep) else 4)]
+    hp = [f"searchpub {rnd.getrandbits(32)} 3 {f}" for f in heavy]
+    runs = [wee.run_lines(wee.harness_path(), hp)[0] for _ in range(3)]
+    for k, r in enumerate(hp):
+        outs = [ru[k] if k < len(ru) else "<no-output>" for ru in runs]
+        same = outs[0] == outs[1] == outs[2]
+        res.add(r + " #repeat-heavy", outs[0], outs[0], "same", (lambda x, same=same, outs=outs: "same" if same else f"differs: {outs[1][:100]} / {outs[2][:100]}"))
+    res.tags["heavy_positions_max_moves"] = max(len(ms) for f, ms in mv) if mv else 0
+    return "legal positions from play; seeds; depth limits 1-3 (thorough: 4) with an explicit single worker through the hook: the real StatusEvent sequence (lines, evaluations, node counts, table entries) must equal the Lean model's prediction exactly, be identical when repeated in one process and in a fresh process; depth limits 1-3 through the public Searcher::analyze repeated across processes, depth 3 three times on the positions with the most legal moves (queen-rich positions, up to 218 moves)"
 
 
 def related_variants(f, rnd):
@@ -667,6 +687,43 @@ def c17(res, tier, seed, deep):
             return "wins-without-repeating"
         res.add(r + " #avoid-repetition", str(final), str(final), "wins-without-repeating", view)
     check_lines(res, "C17", items, want_report=False)
+    # chained real searches: the successor P1 of a mate-keeping move is SEARCHED first (so it is recorded as a root AND
+    # has table entries), then the predecessor P is searched with the returned artifact — the way positions get into
+    # the history in a game.  One worker: exact equality with the model.  Spec: if some first move keeps a forced mate
+    # in d plies along lines that avoid the recorded positions {P1, P} (history-aware solver), the final report is a
+    # winning terminal evaluation whose first move is not the move into P1.
+    creqs, cmeta = [], []
+    for (d, k, f), (m, sp) in zip(mates, drv):
+        keeps = [t.split(":") for t in sp.split(" ") if ":" in t]
+        if len(keeps) < 2:
+            continue
+        raw, succ = rnd.choice(keeps)
+        for d1 in (1, 2):
+            for dd in (d, d + 2):
+                creqs.append(f"searchseq {rnd.getrandbits(32)} 2 64 1 2 {d1} - {succ} {dd} - {f.replace(' ', '_')}")
+                cmeta.append((d, raw, succ, f))
+    if creqs:
+        cimpl = exact_searches(res, creqs)
+        hreqs = [f"matekeeph {d} 2 {succ} {f.replace(' ', '_')} {f}" for d, raw, succ, f in cmeta]
+        hdrv, _, _ = wee.run_driver(hreqs, jobs=8)
+        citems = []
+        for r, (d, raw, succ, f), o, (m, sp) in zip(creqs, cmeta, cimpl, hdrv):
+            others = [t for t in sp.split(" ") if t and t != raw]
+            second = o.split(" | ")[1] if " | " in o else ""
+            citems.append((r + " #second", f, second, True))
+            bests, _ = parse_events(second)
+            final = bests[-1] if bests else None
+            def view2(x, final=final, raw=raw, others=others, d=d):
+                if not others:
+                    return "wins-without-repeating"      # no other mate that avoids the recorded positions: nothing is owed
+                if final is None or final[0] < 10000:
+                    return f"no winning terminal evaluation although a non-repeating first move mates in {d}: {final}"
+                if final[1] and final[1][0] == raw:
+                    return "the repeating move was chosen"
+                return "wins-without-repeating"
+            res.add(r + " #avoid-repetition-chained", str(final), str(final), "wins-without-repeating", view2)
+            res.tag("chained_with_alternative" if others else "chained_without_alternative")
+        check_lines(res, "C17", citems, want_report=False)
     res.tags["positions_with_two_mating_moves"] = len(mates)
     return "few-men positions with a forced mate in <= 3 plies and at least two first moves that keep it (exhaustive solver); for each, the position after one of those moves is recorded in the artifact's history through the hook; searches at depth n and n+2, one worker (exact equality with the model) and 2-32 workers; spec: the final report is a winning terminal evaluation whose first move is not the recorded (repeating) one and keeps the mate"
 
@@ -691,12 +748,27 @@ def run_sessions(res, tag, sessions, parallel=4, strict_bestmove=True):
 
     def go(item):
         name, cmds, eof, steps = item
+        cap = {}
         try:
-            return uci_proc.run_session(exe, steps, eof=eof, strict_bestmove=strict_bestmove)
+            return uci_proc.run_session(exe, steps, eof=eof, strict_bestmove=strict_bestmove, capture=cap), cap
         except Exception as e:  # a harness problem is reported, not hidden
-            return [f"session runner error: {e!r}"]
+            return [f"session runner error: {e!r}"], cap
     with ThreadPoolExecutor(max_workers=parallel) as ex:
-        results = list(ex.map(go, planned))
+        both = list(ex.map(go, planned))
+    results = [r for r, _ in both]
+    # every `info pv` line must be a legal line from the position of its search (C03 at the UCI surface); lines of
+    # searches on illegal base positions (C14 sessions) are outside C03's domain
+    pl = uci_proc.Planner()
+    npv = 0
+    for probs, cap in both:
+        for fen, lans in cap.get("pvs", []):
+            if pl.model("legalpos " + fen)[1] != "1":
+                continue
+            npv += 1
+            if not lans or pl.spec_play(fen, lans) is None:
+                probs.append(f"`info pv {' '.join(lans)[:80]}` is not a legal line from {fen}")
+    pl.close()
+    res.tags["pv_lines_checked"] = res.tags.get("pv_lines_checked", 0) + npv
     for (name, cmds, eof, steps), probs in zip(planned, results):
         req = f"session {name}: " + " ; ".join(c for c, d in cmds)[:1500] + (" ; <EOF>" if eof else "")
         res.add(req, "accepted" if not probs else "rejected: " + " | ".join(probs)[:1200], "accepted", "accepted", None)
